@@ -32,8 +32,8 @@ import (
 // Shape: question <host>.<zone> (or the zone itself); answer: optional CNAME chain, then 1..3 RRsets;
 // authority: 0..2 RRsets (NS set of the zone ...); additional: address sets owned by names that occur
 // in the RDATA before (glue; the owner may be spelled differently from the NS target) or by further
-// hosts of the zone. Set sizes 1..12, in 1/3 of the replies one set of 20..70 records (an address set
-// of 16 octets per record needs more than thirty members to pass the 512-octet floor); in 1/4 a TXT
+// hosts of the zone. Set sizes 1..12, in half of the replies one set of 20..70 records (an address set
+// of 16 octets per record needs more than thirty members to pass the 512-octet floor); in 1/3 a TXT
 // record of some hundred octets in front lifts the reply towards the floor. Sizes: pickSize (exact
 // packed length of every record prefix -2..+2, uniform, well-known), computed under the same spelling.
 
@@ -125,7 +125,11 @@ func genRRsets(t *rapid.T) truncCase {
 	o.NameGen = func(t *rapid.T) wm.Name {
 		switch k := rapid.IntRange(0, 9).Draw(t, "rdname"); {
 		case k < 5 && len(hosts) > 0:
-			return hosts[rapid.IntRange(0, len(hosts)-1).Draw(t, "oldhost")].Clone()
+			h := hosts[rapid.IntRange(0, len(hosts)-1).Draw(t, "oldhost")].Clone()
+			if rapid.IntRange(0, 3).Draw(t, "rdcase") == 0 {
+				h = gen.FlipCase(t, h)
+			}
+			return h
 		case k < 9:
 			h := host()
 			hosts = append(hosts, h)
@@ -153,7 +157,7 @@ func genRRsets(t *rapid.T) truncCase {
 	big := -1
 	nsets := [3]int{rapid.IntRange(1, 3).Draw(t, "nan"), rapid.IntRange(0, 2).Draw(t, "nns"), rapid.IntRange(0, 3).Draw(t, "nex")}
 	total := nsets[0] + nsets[1] + nsets[2]
-	if rapid.IntRange(0, 2).Draw(t, "hasbig") == 0 {
+	if rapid.Bool().Draw(t, "hasbig") {
 		big = rapid.IntRange(0, total-1).Draw(t, "bigset")
 	}
 	maxBig := 70
@@ -171,7 +175,7 @@ func genRRsets(t *rapid.T) truncCase {
 
 	// answer section
 	owner := qname
-	if rapid.IntRange(0, 3).Draw(t, "front") == 0 {
+	if rapid.IntRange(0, 2).Draw(t, "front") == 0 {
 		f := gen.PlainFiller(rapid.IntRange(100, 440).Draw(t, "frontlen"))
 		f.Name = owner.Clone()
 		m.An = append(m.An, f)
@@ -217,10 +221,10 @@ func genRRsets(t *rapid.T) truncCase {
 
 	c := truncCase{M: m, Plain: plain, TC: rapid.IntRange(0, 4).Draw(t, "tc") == 0, Comp: rapid.IntRange(0, 3).Draw(t, "comp") == 0}
 	if !plain {
-		c.FitsAll = fitsAll(m)
 		if rapid.Bool().Draw(t, "respell") {
 			c.Spell = drawSpell(t)
 		}
+		c.FitsAll = fitsAllSpelled(m, c.Spell)
 	}
 	c.Size = pickSizeSpelled(t, m, c.Spell)
 	return c
@@ -233,5 +237,5 @@ func drawSpell(t *rapid.T) uint64 {
 }
 
 func init() {
-	pbt.Register(pbt.Sub[truncCase]{Name: "truncate-rrsets", Weight: 3, Gen: genRRsets, Check: checkTrunc})
+	pbt.Register(pbt.Sub[truncCase]{Name: "truncate-rrsets", Weight: 2, Gen: genRRsets, Check: checkTrunc})
 }
